@@ -85,7 +85,8 @@ TypeU  == {"script", "image", "subdocument"}
 FTypes == { [R0 EXCEPT !.permTypes = p, !.restTypes = x] :
               p \in {s \in SUBSET TypeU : Cardinality(s) <= 2}, x \in {s \in SUBSET TypeU : Cardinality(s) <= 2} }
           \ {R0}
-DomU   == { exampleOrg, subExampleOrg, exampleCom, googleWild, exampleWild }
+blogspotCom == <<Str("blogspot"), Str("com")>>       \* a public suffix of the private section, as a plain $domain value
+DomU   == { exampleOrg, subExampleOrg, exampleCom, googleWild, exampleWild, blogspotCom }
 FDomain == { [R0 EXCEPT !.permDom = pr[1], !.restDom = pr[2]] : pr \in Splits(DomU) }
 DenyU  == { exampleOrg, subExampleOrg, exampleCom, exampleWild }
 FDeny  == { [R0 EXCEPT !.denyallow = d] : d \in {s \in SUBSET DenyU : s # {} /\ Cardinality(s) <= MaxSet} }
@@ -106,7 +107,7 @@ FPattern == { [R0 EXCEPT !.pat = p, !.mcase = m] : p \in PatU, m \in {"none", "o
 FFlags == { [R0 EXCEPT !.white = w, !.important = i, !.misc = m] : w \in BOOLEAN, i \in BOOLEAN, m \in {{}, {"popup"}} }
           \ { r \in { [R0 EXCEPT !.white = TRUE, !.important = i, !.misc = {"popup"}] : i \in BOOLEAN } : TRUE }
 FDoc   == { [R0 EXCEPT !.white = TRUE, !.docOpts = d, !.permTypes = p] :
-              d \in {{"elemhide"}, {"urlblock", "genericblock"}, DocOpts \ {"generichide", "genericblock"}},
+              d \in { {o} : o \in DocOpts } \cup {{"urlblock", "genericblock"}, DocOpts \ {"generichide", "genericblock"}},
               p \in {{}, {"script"}} }
 
 Families == [third |-> FThird, types |-> FTypes, domain |-> FDomain, deny |-> FDeny, dns |-> FDns,
